@@ -512,11 +512,12 @@ let model_case (toks : string list) : string =
                          @ [Printf.sprintf "t%d.trace=%s" i (nlist_str trace)])) ths)
        ^ Printf.sprintf " flag=%s index=%s" (b01 flag) (nlist_dot index)
      | [] -> failwith "sched R")
-  | "sched" :: "C" :: rest ->
+  | "sched" :: (("C" | "L") as k) :: rest ->
     let (inner, r1) = parse_src rest in
     let (progs, r2) = parse_progs r1 cop_of in
     let sched = parse_sched r2 in
-    let (ths, hist) = ApiSched.api_sched_cached inner progs sched in
+    let (ths, hist) = if k = "C" then ApiSched.api_sched_cached inner progs sched
+      else ApiSched.api_sched_locked inner progs sched in
     S.concat " " (L.mapi (fun i (answers, trace) ->
         S.concat " " ([Printf.sprintf "t%d.n=%d" i (L.length answers)]
                       @ L.mapi (fun j a -> Printf.sprintf "t%d.r%d=%s" i j (string_of_answer a)) answers
@@ -623,7 +624,7 @@ let check_case (prop : string) (toks : string list) (kvs : (string * string) lis
        verdict (ApiSched.chk_C18_replace inner rs (n_of_string presort) results
                   (get kvs "flag" = "1", nlist_of_dot (get kvs "index")))
      | [] -> failwith "sched R")
-  | "sched" :: "C" :: rest ->
+  | "sched" :: ("C" | "L") :: rest ->
     let (inner, r1) = parse_src rest in
     let (progs, _) = parse_progs r1 cop_of in
     if has_panic kvs || L.mem_assoc "PANIC" kvs then "FAIL clause=panic" else
